@@ -251,6 +251,38 @@ func c14Round(a *c14Args, round int) (res c14Res) {
 			_ = tx.Rollback()
 			break
 		}
+		if ci%6 == 2 {
+			// a backup taken from the write transaction itself, before it commits: the copy is the state this
+			// transaction started from (its own changes are not in the file yet), with the size the transaction reports
+			wid := tx.ID()
+			vmu.RLock()
+			want := versions[wid-1]
+			vmu.RUnlock()
+			if want != nil {
+				cp := filepath.Join(a.Dir, fmt.Sprintf("c14-wcopy-%d-%d-%d.db", os.Getpid(), round, ci))
+				size := tx.Size()
+				err := tx.CopyFile(cp, 0600)
+				var written int64 = -1
+				if fi, serr := os.Stat(cp); serr == nil {
+					written = fi.Size()
+				}
+				switch {
+				case err != nil:
+					fail("CopyFile from write transaction %d: %v", wid, err)
+				case written != size:
+					fail("CopyFile from write transaction %d wrote %d bytes, tx.Size()=%d", wid, written, size)
+				default:
+					pages := verifyCopy(cp, want, a.Opts.Freelist, a.Opts.NoFreelistSync, func(f string, x ...any) {
+						fail("CopyFile from write transaction %d (before its commit): %s", wid, fmt.Sprintf(f, x...))
+					})
+					mu.Lock()
+					res.ByMethod["CopyFile-from-write-tx"]++
+					res.CopyPages += pages
+					mu.Unlock()
+				}
+				os.Remove(cp)
+			}
+		}
 		if ci%9 == 4 {
 			// "every amount of concurrent write activity" includes writers that fail: a commit rejected by the size
 			// limit is rolled back by bbolt itself (freelist reload) while backups are being taken
